@@ -281,6 +281,12 @@ func c39mutants(c *c39ctx) []*c39mut {
 		b.Header.SigData = [][]byte{c39sign(other, h[:])}
 		return true
 	})
+	// a non-bookkeeper seals the block and names himself the next bookkeeper: no valid bookkeeper signature at all
+	add("signature", "foreign-key-seals-and-names-itself-next", true, func(b *types.Block) bool {
+		b.Header.NextBookkeeper = types.AddressFromPubKey(other.PublicKey)
+		vSeal(b, other)
+		return true
+	})
 	add("signature", "bookkeeper-dup-one-sig", true, func(b *types.Block) bool {
 		b.Header.Bookkeepers = []keypair.PublicKey{bk.PublicKey, bk.PublicKey}
 		return true
@@ -464,11 +470,19 @@ func c39view(l *vLedger, p *c39probe) []string {
 		j, _ := json.Marshal(ev)
 		put("GetEventNotifyByTx("+n+")", c39hx(j), c39e(err))
 	}
-	for i := 0; i < 4; i++ {
-		put(fmt.Sprintf("ont(acct%d)", i), l.Ont(vAcct(i).Address))
-		put(fmt.Sprintf("ong(acct%d)", i), l.Ong(vAcct(i).Address))
+	cdb := ls.GetCacheDB()
+	bal := func(token, a common.Address) string {
+		b, err := nutils.GetNativeTokenBalance(cdb, vBalanceKey(token, a))
+		if err != nil {
+			return "!" + err.Error()
+		}
+		return b.ToBigInt().String()
 	}
-	put("ong(governance)", l.Ong(nutils.GovernanceContractAddress))
+	for i := 0; i < 4; i++ {
+		put(fmt.Sprintf("ont(acct%d)", i), bal(nutils.OntContractAddress, vAcct(i).Address))
+		put(fmt.Sprintf("ong(acct%d)", i), bal(nutils.OngContractAddress, vAcct(i).Address))
+	}
+	put("ong(governance)", bal(nutils.OngContractAddress, nutils.GovernanceContractAddress))
 	bs, err := ls.GetBookkeeperState()
 	if bs != nil {
 		sink := common.NewZeroCopySink(nil)
@@ -697,6 +711,7 @@ func (t *c39twins) drop() {
 }
 
 type c39env struct {
+	nviol   int
 	r       *vh.Run
 	s       *c39scn
 	tw      *c39twins
@@ -708,9 +723,9 @@ func TestVerif_C39(t *testing.T) {
 	defer r.Finish()
 	r.Rule("cases = base chain x ledger pre-history {plain, valid next header cached, competing header of the previous height cached} x single-field mutant of the valid next block (classes height/prevhash/timestamp/blockroot/txroot/signature; re-sealed with the real bookkeeper key unless the signature is what is mutated) x entry point {AddBlock(object), wire round trip + AddBlock, ExecuteBlock+SubmitBlock, AddHeaders} x {no restart, restart before the valid block}; evaluations = deliveries; outcome class = mutation class : entry point : refusing stage")
 	if r.Quick() {
-		r.Bound("3 base chains of height 2 (next block with 2, 0, 3 transactions, one failing), 3 pre-histories, all mutants of c39mutants, 4 entry points; the mutants of one class are delivered in sequence to one ledger (unchanged-checks after each, restart + valid block after the last); restart variant for AddBlock and AddHeaders only")
+		r.Bound("3 base chains of height 2 (next block with 2, 0, 3 transactions, one failing), 3 pre-histories, all mutants of c39mutants, 4 entry points; all mutants of a scenario are delivered in sequence to one ledger (unchanged-checks after each, restart + valid block after the last; a failing tail check is attributed by re-running every member alone); restart variant for AddBlock and AddHeaders only")
 	} else {
-		r.Bound("3 base chains of height 2 (next block with 2, 0, 3 transactions, one failing), 3 pre-histories, all mutants of c39mutants, 4 entry points, with and without restart; every mutant alone on a fresh ledger, and additionally all mutants of a scenario in sequence on one ledger")
+		r.Bound("3 base chains of height 2 (next block with 2, 0, 3 transactions, one failing), 3 pre-histories, all mutants of c39mutants, 4 entry points, with and without restart; every mutant alone on a fresh ledger, and additionally the mutants of each class and all mutants of a scenario in sequence on one ledger")
 	}
 	r.Assume("a peer's block reaches AddBlock only through types.Block.Deserialization (p2p message decoding); transaction-list/transaction-root mismatches are therefore judged on the wire path, the in-process object path is recorded as info only")
 	r.Assume("the state-root argument of AddBlock is the root obtained by executing the delivered block (so that a state-root mismatch never is the reason of a rejection)")
@@ -762,6 +777,22 @@ func TestVerif_C39(t *testing.T) {
 				muts = append(muts, m)
 			}
 		}
+		if replay {
+			if r.R.Shard == 0 {
+				var g []*c39mut
+				for _, n := range rc.Muts {
+					for _, m := range muts {
+						if m.class+"/"+m.name == n {
+							g = append(g, m)
+						}
+					}
+				}
+				r.Need(len(g) == len(rc.Muts) && len(g) > 0, "replay: unknown mutation in %v", rc.Muts)
+				env.group(g, rc)
+			}
+			tw.drop()
+			continue
+		}
 		for _, path := range paths {
 			// groups of this scenario/path
 			var groups [][]*c39mut
@@ -783,12 +814,13 @@ func TestVerif_C39(t *testing.T) {
 				all = append(all, m)
 			}
 			if r.Quick() {
-				for _, c := range order {
-					groups = append(groups, byClass[c])
-				}
+				groups = append(groups, all)
 			} else {
 				for _, m := range all {
 					groups = append(groups, []*c39mut{m})
+				}
+				for _, c := range order {
+					groups = append(groups, byClass[c])
 				}
 				groups = append(groups, all)
 			}
@@ -801,14 +833,11 @@ func TestVerif_C39(t *testing.T) {
 						continue
 					}
 					cs := c39case{Chain: s.ch.name, Pre: s.pre, Kind: s.kind, Class: g[0].class, Path: path, Reopen: reopen}
-					if len(g) > 1 && r.Thorough() {
+					if len(g) == len(all) && len(g) > 1 {
 						cs.Class = "all"
 					}
 					for _, m := range g {
 						cs.Muts = append(cs.Muts, m.class+"/"+m.name)
-					}
-					if replay && cs.String() != rc.String() {
-						continue
 					}
 					if r.Expired() {
 						break
@@ -836,7 +865,7 @@ func TestVerif_C39(t *testing.T) {
 		r.NeedClass("control:AddBlock:accepted")
 		r.NeedClass("control:AddHeaders:accepted")
 	}
-	r.Need(replay || r.R.Evaluations > 0, "no case evaluated")
+	r.Need(replay || r.R.Evaluations > 0 || r.R.CapHit, "no case evaluated")
 }
 
 func (e *c39env) probe(ms []*c39mut) *c39probe {
@@ -887,10 +916,31 @@ func (e *c39env) group(g []*c39mut, cs c39case) bool {
 	fresh()
 	defer func() { c39drop(l) }()
 	single := len(g) == 1
-	for _, m := range g {
+	for gi, m := range g {
 		r.Eval(1)
 		key := func(effect string) string { return m.class + ":" + m.name + ":" + effect }
 		at := fmt.Sprintf("%v at %s/%s", cs, m.class, m.name)
+		// a failure inside a sequence is reported by its minimal case: the mutant alone if that
+		// reproduces it, else the sequence up to the mutant
+		m, gi := m, gi
+		violate := func(effect, format string, a ...interface{}) {
+			if !single {
+				c1 := cs
+				c1.Class, c1.Muts = m.class, []string{m.class + "/" + m.name}
+				n0 := e.nviol
+				e.group([]*c39mut{m}, c1)
+				if e.nviol > n0 {
+					return
+				}
+				cq := cs
+				cq.Muts = cq.Muts[:gi+1]
+				e.nviol++
+				r.Violationf(key(effect+"(only-after-earlier-mutants)"), cq, format, a...)
+				return
+			}
+			e.nviol++
+			r.Violationf(key(effect), cs, format, a...)
+		}
 		p := e.probe([]*c39mut{m})
 		if d := c39viewDiff(c39view(l, p), c39view(tw.l, p)); d != "" {
 			r.Need(false, "subject and twin views differ before delivery %s: %s", at, d)
@@ -899,7 +949,7 @@ func (e *c39env) group(g []*c39mut, cs c39case) bool {
 		var stage string
 		var derr error
 		if pn := vh.Catch(func() { stage, derr = c39deliver(l, m, cs.Path, tw.rootAfter) }); pn != "" {
-			r.Violationf(key("panic"), cs, "%s: delivery panicked: %s", at, pn)
+			violate("panic", "%s: delivery panicked: %s", at, pn)
 			r.Class(m.class + ":" + cs.Path + ":panic")
 			fresh()
 			continue
@@ -931,7 +981,7 @@ func (e *c39env) group(g []*c39mut, cs c39case) bool {
 		}
 		if accepted {
 			nh, nhash := l.ls.GetCurrentBlock()
-			r.Violationf(key("accepted"), cs, "%s: the mutant was accepted (err=%v): block height %d->%d, current hash %s, header height %d->%d",
+			violate("accepted-as-"+s.kind, "%s: the mutant was accepted (err=%v): block height %d->%d, current hash %s, header height %d->%d",
 				at, derr, hBefore, nh, nhash.ToHexString()[:16], hdrBefore, l.ls.GetCurrentHeaderHeight())
 			if single {
 				return true
@@ -940,7 +990,7 @@ func (e *c39env) group(g []*c39mut, cs c39case) bool {
 			continue
 		}
 		if d := vDiff(before, l.Dump()); len(d) != 0 {
-			r.Violationf(key("store-changed"), cs, "%s: rejected (%v) but the stores changed:%s", at, derr, vHexKeys(d))
+			violate("store-changed", "%s: rejected (%v) but the stores changed:%s", at, derr, vHexKeys(d))
 			if single {
 				return true
 			}
@@ -948,7 +998,7 @@ func (e *c39env) group(g []*c39mut, cs c39case) bool {
 			continue
 		}
 		if d := c39viewDiff(c39view(l, p), c39view(tw.l, p)); d != "" {
-			r.Violationf(key("view-changed"), cs, "%s: rejected (%v) but a query answers differently than on a ledger that never saw the mutant: %s", at, derr, d)
+			violate("view-changed", "%s: rejected (%v) but a query answers differently than on a ledger that never saw the mutant: %s", at, derr, d)
 			if single {
 				return true
 			}
@@ -964,6 +1014,7 @@ func (e *c39env) group(g []*c39mut, cs c39case) bool {
 	key := func(effect string) string { return g[0].class + ":" + name + ":" + effect }
 	report := func(k, format string, a ...interface{}) bool {
 		if single {
+			e.nviol++
 			r.Violationf(key(k), cs, format, a...)
 		}
 		return false
